@@ -432,15 +432,25 @@ func checkC19(w *World, c *Check, tier string) {
 		c.bad("C19.get", "Get", "-", "method not found")
 	}
 	// ---- set ----
+	// Set(tag, v) must make Get(tag) — the FIRST entry with the tag — return v, keep everything else, and grow the list by
+	// at most one. Decided on the shape of the search:
+	//   in-place  every element store is under the test 'entry tag == requested tag';
+	//   first     either every matching entry is overwritten (no way out of the search after a store), or the search
+	//             leaves after a store and then it must run forward from index 0 (so the entry it stops at is the first);
+	//   append    the appending call is reached only when nothing was overwritten: either no path leads from a store to
+	//             it, or it sits on the false side of a flag that is a phi of constants (the found-flag idiom);
+	//             and it is reachable when nothing matched.
 	if set != nil {
 		storeOK, storeSeen := true, false
-		appendOK, appendSeen := true, false
+		var storeBlocks []*ssa.BasicBlock
+		var appendCalls []*ssa.Call
 		for _, b := range set.Blocks {
 			for _, in := range b.Instrs {
 				switch x := in.(type) {
 				case *ssa.Store:
 					if _, isIdx := x.Addr.(*ssa.IndexAddr); isIdx {
 						storeSeen = true
+						storeBlocks = append(storeBlocks, b)
 						under := false
 						for _, g := range rawGuards(b) {
 							if g.onTrue && isRefTest(g.cond, set) {
@@ -453,36 +463,10 @@ func checkC19(w *World, c *Check, tier string) {
 					}
 				case *ssa.Call:
 					if calleeNamed(x, "Append") || calleeNamed(x, "Add") {
-						appendSeen = true
-						// must be guarded by a flag that is set only where the in-place store happened
-						guarded := false
-						for _, g := range rawGuards(b) {
-							if phi, ok := g.cond.(*ssa.Phi); ok && !g.onTrue {
-								allConst := true
-								for _, e := range phi.Edges {
-									if _, isC := e.(*ssa.Const); !isC {
-										if _, isPhi := e.(*ssa.Phi); !isPhi {
-											allConst = false
-										}
-									}
-								}
-								if allConst {
-									guarded = true
-								}
-							}
-						}
-						if !guarded {
-							appendOK = false
-						}
+						appendCalls = append(appendCalls, x)
 					}
 					if bi, ok := x.Common().Value.(*ssa.Builtin); ok && bi.Name() == "append" {
-						appendSeen = true
-						appendOK = false // a raw append inside Set is not behind the found flag idiom
-						for _, g := range rawGuards(b) {
-							if _, ok := g.cond.(*ssa.Phi); ok && !g.onTrue {
-								appendOK = true
-							}
-						}
+						appendCalls = append(appendCalls, x)
 					}
 				}
 			}
@@ -493,10 +477,140 @@ func checkC19(w *World, c *Check, tier string) {
 		default:
 			c.ok("C19.set", "Set:in-place", w.FuncPos(set), "overwrites only the entry whose tag matches")
 		}
-		switch {
-		case !appendSeen || !appendOK:
-			c.bad("C19.set", "Set:append-when-missing", w.FuncPos(set), "Set appends without being on the not-found side of its search: the list can grow although the tag is present (or never grows)")
-		default:
+		// the search loop and its direction
+		loops := loopHeaders(set)
+		firstBad := ""
+		for _, sb := range storeBlocks {
+			var header *ssa.BasicBlock
+			for h := range loops[sb] {
+				header = h
+			}
+			if header == nil {
+				firstBad = "the overwriting store is not inside a search loop"
+				continue
+			}
+			// does control leave the loop after the store without passing the header again?
+			leaves := false
+			seen := map[*ssa.BasicBlock]bool{sb: true}
+			work := []*ssa.BasicBlock{sb}
+			for len(work) > 0 {
+				x := work[len(work)-1]
+				work = work[:len(work)-1]
+				for _, nx := range x.Succs {
+					if nx == header || seen[nx] {
+						continue
+					}
+					if !loops[nx][header] {
+						leaves = true
+						continue
+					}
+					seen[nx] = true
+					work = append(work, nx)
+				}
+				if len(x.Succs) == 0 {
+					leaves = true
+				}
+			}
+			if !leaves {
+				continue // every match is overwritten, the first one included
+			}
+			// early exit: the scan must be ascending from 0 (range loops are; counted loops need init 0 / -1 and step +1)
+			forward := false
+			for _, in := range header.Instrs {
+				phi, ok := in.(*ssa.Phi)
+				if !ok {
+					break
+				}
+				if b, isB := types.Unalias(phi.Type()).Underlying().(*types.Basic); !isB || b.Info()&types.IsInteger == 0 {
+					continue
+				}
+				initOK, stepOK := false, false
+				for ei, e := range phi.Edges {
+					if loops[header.Preds[ei]][header] {
+						if bo, ok := e.(*ssa.BinOp); ok && bo.Op == token.ADD && bo.X == ssa.Value(phi) {
+							if k, ok := bo.Y.(*ssa.Const); ok && k.Value != nil && k.Int64() == 1 {
+								stepOK = true
+							}
+						}
+					} else if k, ok := e.(*ssa.Const); ok && k.Value != nil && (k.Int64() == 0 || k.Int64() == -1) {
+						initOK = true
+					}
+				}
+				if initOK && stepOK {
+					forward = true
+				}
+			}
+			if !forward {
+				firstBad = "the search stops at the entry it overwrites but does not run forward from the first entry: with a repeated tag a later entry is rewritten while Get still returns the first"
+			}
+		}
+		if storeSeen {
+			if firstBad != "" {
+				c.bad("C19.set", "Set:first-entry", w.FuncPos(set), firstBad)
+			} else {
+				c.ok("C19.set", "Set:first-entry", w.FuncPos(set), "the first entry with the tag is among those overwritten")
+			}
+		}
+		appendBad := ""
+		if len(appendCalls) == 0 {
+			appendBad = "Set never appends: a tag that is not present cannot be set"
+		}
+		for _, ac := range appendCalls {
+			ab := ac.Block()
+			flagGuard := false
+			for _, g := range rawGuards(ab) {
+				if phi, ok := g.cond.(*ssa.Phi); ok && !g.onTrue {
+					allConst := true
+					for _, e := range phi.Edges {
+						if _, isC := e.(*ssa.Const); !isC {
+							if _, isPhi := e.(*ssa.Phi); !isPhi {
+								allConst = false
+							}
+						}
+					}
+					if allConst {
+						flagGuard = true
+					}
+				}
+			}
+			afterStore := false
+			for _, sb := range storeBlocks {
+				if reaches(sb, ab) {
+					afterStore = true
+				}
+			}
+			if afterStore && !flagGuard {
+				appendBad = "Set can append after having overwritten an entry (the appending call is reachable from the store and not behind a found flag): the list grows although the tag is present"
+			}
+			// reachable when nothing matched: a path from entry that avoids every store block
+			avoid := map[*ssa.BasicBlock]bool{}
+			for _, sb := range storeBlocks {
+				avoid[sb] = true
+			}
+			seen := map[*ssa.BasicBlock]bool{set.Blocks[0]: true}
+			work := []*ssa.BasicBlock{set.Blocks[0]}
+			found := set.Blocks[0] == ab
+			for len(work) > 0 && !found {
+				x := work[len(work)-1]
+				work = work[:len(work)-1]
+				for _, nx := range x.Succs {
+					if avoid[nx] || seen[nx] {
+						continue
+					}
+					if nx == ab {
+						found = true
+					}
+					seen[nx] = true
+					work = append(work, nx)
+				}
+			}
+			if !found {
+				appendBad = "the appending call cannot be reached when no entry matched: a tag that is not present is never added"
+			}
+		}
+		if appendBad != "" {
+			c.bad("C19.set", "Set:append-when-missing", w.FuncPos(set), appendBad)
+		} else {
 			c.ok("C19.set", "Set:append-when-missing", w.FuncPos(set), "appends only when no entry matched")
 		}
 	} else {
